@@ -37,7 +37,8 @@ def plan(tier, seed):
     jobs = []
     for j in range(16 if tier == "quick" else 200):
         jobs.append({"kind": "roundtrip", "seed": rng.randrange(2 ** 31),
-                     "count": 130 if tier == "quick" else 500, "hashseed": 0})
+                     "count": 130 if tier == "quick" else 500, "hashseed": 0,
+                     "long": j == 0})
     for j in range(20 if tier == "quick" else 400):
         specs = []
         for _ in range(5):
@@ -72,6 +73,7 @@ def _roundtrip(job, scratch):
         res["events"][k] = res["events"].get(k, 0) + n
     store = PathStorage()
     for c in range(job["count"]):
+        long_path = job.get("long") and c == 0
         base = os.path.join(scratch, f"rt{c}")
         src = os.path.join(base, "worker")
         os.makedirs(src)
@@ -85,9 +87,15 @@ def _roundtrip(job, scratch):
                 f.write(f"content {i} {rng.random()}\n")
             files.append(fn)
         n = rng.randint(1, 40)
+        if long_path:
+            # longer than Path's default maxlen (100 000): tis_set.maxlength
+            # may be larger than that
+            n = 100000 + rng.randint(1, 60)
         ncv = rng.randint(1, 3)
         emode = rng.choice(["all", "none", "partial", "all"])
-        path = Path(maxlen=1000)
+        path = Path(maxlen=1000 if not long_path else 200000)
+        if long_path:
+            ev("very_long_paths")
         spec = []
         for k in range(n):
             s = System()
